@@ -7,6 +7,7 @@ src=Source()
 import contracts
 from contracts.common import REG
 qn=sys.argv[1]
-t=time.time()
 obs,info,outs=collect_obligations(src, REG, Models, REG[qn])
-print('symexec %.1fs'%(time.time()-t), info['paths'], info['path_kinds'], info['stats'], len(obs))
+for o in outs:
+    print(o.kind, o.value, [e[:3] for e in o.st.log if e[0]!='Log'])
+    print('    pc', o.st.pc[:12])
